@@ -58,7 +58,9 @@ func verifServerConn(c primitive.Compression) *CqlServerConnection {
 		buf := &bytes.Buffer{}
 		nd.Assert(frame.NewCodec().EncodeFrame(st, buf) == nil, "STARTUP encodes")
 		nd.Assert(!s.readFrame(buf), "STARTUP is read")
-		<-s.incoming
+		if len(s.incoming) == 1 {
+			<-s.incoming
+		}
 	}
 	s.modernLayout = true
 	return s
@@ -145,6 +147,9 @@ func VerifC15_SelfContained_Server_1to3Envelopes() {
 	abort := conn.readSelfContainedSegment(&segment.Segment{Header: &segment.Header{IsSelfContained: true}, Payload: &segment.Payload{UncompressedData: payload}}, false)
 	nd.Assert(!abort, "segment is processed")
 	nd.Assert(len(conn.incoming) == n, "every envelope of the segment is delivered")
+	if len(conn.incoming) != n {
+		return
+	}
 	for i := 0; i < n; i++ {
 		g := <-conn.incoming
 		nd.Assert(g.Header.StreamId == sent[i].Header.StreamId, "envelopes are delivered in order")
@@ -177,6 +182,10 @@ func VerifC15_SelfContained_Client_1to3Envelopes() {
 	abort := conn.readSelfContainedSegment(&segment.Segment{Header: &segment.Header{IsSelfContained: true}, Payload: &segment.Payload{UncompressedData: payload}}, false)
 	nd.Assert(!abort, "segment is processed")
 	for i, r := range reqs {
+		nd.Assert(len(r.Incoming()) == 1, "every envelope of the segment reaches its request")
+		if len(r.Incoming()) != 1 {
+			return
+		}
 		g, ok := <-r.Incoming()
 		nd.Assert(ok, "every envelope of the segment reaches its request")
 		if ok {
@@ -207,55 +216,87 @@ func verifSplit(b []byte) [][]byte {
 	return [][]byte{b[:c1], b[c1:c2], b[c2:]}
 }
 
+// verifSplitAt cuts b into two parts at a cut chosen under the given name (the second envelope of a history uses one
+// split only, to keep the number of paths down)
+func verifSplit2(b []byte, name string) [][]byte {
+	c1 := 9 + nd.Choice(name, len(b)-9-1)
+	if c1 >= len(b) {
+		nd.Assume(false)
+	}
+	return [][]byte{b[:c1], b[c1:]}
+}
+
+// two envelopes, one after the other on the same connection, each split over several segments: the state the
+// first one leaves behind must not disturb the second (the accumulator is observed through behaviour only)
 func VerifC15_MultiSegment_Server() {
 	conn := verifServerConn(primitive.CompressionNone)
-	f := verifQueryFrame(false)
-	b := verifPlainEnvelope(f)
-	parts := verifSplit(b)
-	for i, p := range parts {
-		abort := conn.addMultiSegmentPayload(&segment.Payload{UncompressedData: p})
-		nd.Assert(!abort, "part accepted")
-		if i < len(parts)-1 {
-			nd.Assert(len(conn.incoming) == 0, "nothing is delivered before the last part")
+	for round := 0; round < 2; round++ {
+		f := verifQueryFrame(false)
+		b := verifPlainEnvelope(f)
+		var parts [][]byte
+		if round == 0 {
+			parts = verifSplit(b)
+		} else {
+			parts = verifSplit2(b, "second envelope cut")
 		}
-	}
-	nd.Assert(len(conn.incoming) == 1, "the reassembled envelope is delivered exactly once")
-	if len(conn.incoming) == 1 {
+		for i, p := range parts {
+			abort := conn.addMultiSegmentPayload(&segment.Payload{UncompressedData: p})
+			nd.Assert(!abort, "part accepted")
+			if i < len(parts)-1 {
+				nd.Assert(len(conn.incoming) == 0, "nothing is delivered before the last part")
+			}
+		}
+		nd.Assert(len(conn.incoming) == 1, "the reassembled envelope is delivered exactly once")
+		if len(conn.incoming) != 1 {
+			return
+		}
 		g := <-conn.incoming
 		nd.Assert(g.Header.StreamId == f.Header.StreamId, "reassembled envelope has the stream id that was sent")
 		q, ok := g.Body.Message.(*message.Query)
 		nd.Assert(ok && q.Query == f.Body.Message.(*message.Query).Query, "reassembled envelope has the content that was sent")
 	}
-	nd.Assert(conn.payloadAccumulator.targetLength == 0 && conn.payloadAccumulator.accumulatedData == nil, "the accumulator is reset afterwards")
 }
 
 func VerifC15_MultiSegment_Client() {
 	conn := verifClientConn(primitive.CompressionNone)
-	req := frame.NewFrame(primitive.ProtocolVersion5, ManagedStreamId, &message.Options{})
-	r, err := conn.inFlightHandler.onOutgoingFrameEnqueued(req)
-	nd.Assert(err == nil, "request registered")
-	if err != nil {
-		return
-	}
-	resp := frame.NewFrame(primitive.ProtocolVersion5, req.Header.StreamId, &message.SetKeyspaceResult{Keyspace: nd.String("ks", 3)})
-	b := verifPlainEnvelope(resp)
-	parts := verifSplit(b)
-	for i, p := range parts {
-		abort := conn.addMultiSegmentPayload(&segment.Payload{UncompressedData: p})
-		nd.Assert(!abort, "part accepted")
-		if i < len(parts)-1 {
-			nd.Assert(len(r.Incoming()) == 0, "nothing is delivered before the last part")
+	for round := 0; round < 2; round++ {
+		req := frame.NewFrame(primitive.ProtocolVersion5, ManagedStreamId, &message.Options{})
+		r, err := conn.inFlightHandler.onOutgoingFrameEnqueued(req)
+		nd.Assert(err == nil, "request registered")
+		if err != nil {
+			return
 		}
+		ksName := "ks"
+		if round == 1 {
+			ksName = "ks2"
+		}
+		resp := frame.NewFrame(primitive.ProtocolVersion5, req.Header.StreamId, &message.SetKeyspaceResult{Keyspace: nd.String(ksName, 3)})
+		b := verifPlainEnvelope(resp)
+		var parts [][]byte
+		if round == 0 {
+			parts = verifSplit(b)
+		} else {
+			parts = verifSplit2(b, "second envelope cut")
+		}
+		for i, p := range parts {
+			abort := conn.addMultiSegmentPayload(&segment.Payload{UncompressedData: p})
+			nd.Assert(!abort, "part accepted")
+			if i < len(parts)-1 {
+				nd.Assert(len(r.Incoming()) == 0, "nothing is delivered before the last part")
+			}
+		}
+		nd.Assert(len(r.Incoming()) == 1, "the reassembled envelope reaches its request exactly once")
+		if len(r.Incoming()) != 1 {
+			return
+		}
+		g, ok := <-r.Incoming()
+		nd.Assert(ok, "the reassembled envelope reaches its request")
+		if ok {
+			sk, isSk := g.Body.Message.(*message.SetKeyspaceResult)
+			nd.Assert(isSk && sk.Keyspace == resp.Body.Message.(*message.SetKeyspaceResult).Keyspace, "reassembled envelope has the content that was sent")
+		}
+		nd.Assert(r.IsDone(), "the final response completes the request")
 	}
-	g, ok := <-r.Incoming()
-	nd.Assert(ok, "the reassembled envelope reaches its request")
-	if ok {
-		sk, isSk := g.Body.Message.(*message.SetKeyspaceResult)
-		nd.Assert(isSk && sk.Keyspace == resp.Body.Message.(*message.SetKeyspaceResult).Keyspace, "reassembled envelope has the content that was sent")
-	}
-	_, again := <-r.Incoming()
-	nd.Assert(!again, "it is delivered exactly once")
-	nd.Assert(conn.payloadAccumulator.targetLength == 0 && conn.payloadAccumulator.accumulatedData == nil, "the accumulator is reset afterwards")
 }
 
 // handshake unframed, everything after framed: the layout switch
